@@ -77,7 +77,7 @@ reg('C20',
           'push with a text of every length 0..H (letter not used by any live entry), two pushes with explicit shorter info_len, one with explicit exact length from an unterminated buffer, three pushes of texts whose last / first character is a double quote, one whose last character is an apostrophe, one with a positive error number, one with an explicit length beyond the end of the text, push without text, '
           'SYST:ERR?, SCPI_ErrorClear, *CLS; key = queue indices and entries (text pointers as heap offsets), heap bytes, heap wr/count, model; every '
           'SYST:ERR? response is compared with the reference FIFO (exact text or none); in every state with an empty queue a probe push of H-1 characters '
-          'must be stored whole; non-trivial = transition that pushes or changes the number of queued errors'),
+          'must be stored whole; the text variants (quotes, apostrophe, positive number, explicit lengths) are part of the alphabet for H <= 8 and N <= 3, the larger spaces of the thorough tier use the plain texts; runs with N = 4 and H >= 6 are explored to depth 9 (every history of <= 9 operations) instead of to the fix-point; a 320-byte heap with texts of 100..319 characters (linear scenario); non-trivial = transition that pushes or changes the number of queued errors'),
     assumptions=['built with -DUSE_MEMORY_ALLOCATION_FREE=0 (a configuration the repository test suite never compiles)',
                  'the heap and the error ring are exact-size malloc blocks under ASan, so any access outside them traps'],
     level_text='Exhaustive for the stated heap sizes and capacities: BFS to the fix-point of the reachable state set (or the stated cap), every history over the operation alphabet.',
